@@ -208,6 +208,7 @@ def oracle(c, o):
 SPEC = {
     "prop_file": "Properties/C07.v",
     "gen": gen,
+    "adaptive_error": True,
     "oracle": oracle,
     "corpus_filter": lambda c: False,
     "stages": [("F", lambda c, o, rng: solcore.stageF(c, o, rng) if c.get("role") in ("rotated", "mirrored", "reversed") else None, P.stageF_v, 2, 30)],
